@@ -96,6 +96,7 @@ type Gen struct {
 	inlineDepth int
 	quiet       bool // inline mode: no obligations
 	nbound      int
+	refComps    map[string]bool       // components whose cells hold references
 	compType    map[string]types.Type // leaf Go type of O: components
 	typed       map[*Term]bool
 	heapClk     map[*Term]*Term // heap component version -> clock when it was written
@@ -163,6 +164,9 @@ func (g *Gen) reset() {
 	g.typed = map[*Term]bool{}
 	if g.compType == nil {
 		g.compType = map[string]types.Type{}
+	}
+	if g.refComps == nil {
+		g.refComps = map[string]bool{}
 	}
 	g.freshRefs = map[*Term]bool{}
 	g.mergeCases = map[*Term][]*mergeCase{}
@@ -427,6 +431,9 @@ func (g *Gen) load(st *State, a *Addr, ty types.Type) Val {
 		name := g.compName(a, lf)
 		if a.Root == RObj {
 			g.compType[name] = lf.Ty
+		}
+		if isRefType(lf.Ty) || strings.HasSuffix(lf.Path, "#arr") {
+			g.refComps[name] = true
 		}
 		var h *Term
 		var r *Term
@@ -1207,6 +1214,11 @@ func (g *Gen) loopHead(b *ssa.BasicBlock, l *Loop, st *State, fwd []*ssa.BasicBl
 	}
 	hs.Epoch = Const(fmt.Sprintf("%s!epoch@loop%d", g.prefix, l.Ordinal), SInt)
 	clk := Const(fmt.Sprintf("%s!clk@loop%d", g.prefix, l.Ordinal), SInt)
+	for _, n := range g.uniOrder {
+		if h := hs.Heap[n]; h != nil && h != st.Heap[n] {
+			g.heapClk[h] = clk // havocked at the head: as young as the head state
+		}
+	}
 	g.assume(Le(st.Clk, clk))
 	hs.Clk = clk
 	for _, in := range b.Instrs {
@@ -1382,4 +1394,15 @@ func (g *Gen) escape(v Val) {
 			g.escape(f)
 		}
 	}
+}
+
+func isRefType(t types.Type) bool {
+	if t == nil {
+		return false
+	}
+	switch t.Underlying().(type) {
+	case *types.Pointer, *types.Map, *types.Chan, *types.Signature, *types.Interface:
+		return true
+	}
+	return false
 }
